@@ -844,6 +844,11 @@ class Engine:
                 path = path + (i,)
             elif k == 'cindex':
                 i = pr[1]
+                if i < 0:
+                    # ConstantIndex from the end (slice patterns `[.., x]`)
+                    cur = self.load(Ref(base, path))
+                    n = (rng[1] - rng[0]) if rng is not None else len(cur.f if type(cur) is Agg else cur.items)
+                    i = n + i
                 if rng is not None:
                     i += rng[0]
                 path = path + (i,)
